@@ -68,6 +68,11 @@ func ParseDecimal(b []byte) (float64, int) {
 	} else if -22 <= exp && exp < 0 { // int / 10^k
 		return f / float64pow10[-exp], i
 	}
+	if exp < -308 {
+		// math.Pow10 is subnormal (imprecise) below -308 and zero below -323, scale in two steps
+		f *= math.Pow10(-308)
+		exp += 308
+	}
 	return f * math.Pow10(exp), i
 }
 
